@@ -101,14 +101,18 @@ Qed.
 
 (* what an outcome handler may return *)
 Definition is_region_err (o : outcome) : bool := match o with OSuccess | ORpcErr _ | ODeadline _ => false | _ => true end.
+(* region errors the handler turns into an error for the caller *)
+Definition is_fatal (o : outcome) : bool :=
+  match o with OFlashback | OFlashbackNotPrepared | ORaftTooLarge | OInvalidMaxTs => true | _ => false end.
 
 Lemma handle_q c s t o i :
   match handle fixed c s t o i with
   | HRetry s' evs => q_retry s' = q_retry s /\ q_stale s' = q_stale s /\ (q_rr s = false -> q_rr s' = false)
-  | HDone _ r evs => match r with RSuccess _ => o = OSuccess | RRegionErr j => j = i /\ is_region_err o = true | _ => True end
+  | HDone _ r evs => match r with RSuccess _ => o = OSuccess | RRegionErr j => j = i /\ is_region_err o = true
+                                  | RFatal j => j = i /\ is_fatal o = true | _ => True end
   end.
 Proof.
-  destruct o; cbn [handle]; unfold on_send_fail, on_busy, on_not_leader_hint, with_backoff; cbv zeta; auto;
+  destruct o; cbn [handle]; unfold on_send_fail, on_busy, on_not_leader_hint, with_backoff, backoff_then_region_err; cbv zeta; auto;
     ifs; auto; try (destruct (backoff _ _ _) as [s' e| |e] eqn:B; [apply backoff_frame in B as (_ & B1 & B2 & B3 & _); cbn in B1, B2, B3| |]);
     auto; repeat split; auto; try congruence.
 Qed.
